@@ -14,7 +14,7 @@ def run(tier):
     c = Counter()
     seeds = ["0", "1", "2", "3", "random"] if tier == "quick" else ["0", "1", "2", "3", "4", "7", "random", "random"]
     blocks = gen.blocks(sd * 37 + 14, 50 if tier == "quick" else 1000, profiles=("mixed", "mem", "arith", "stack")) + \
-        rng.sample(gen.mem_pair_corpus(), 30) + rng.sample(gen.rule_corpus(), 30)
+        rng.sample(gen.mem_pair_corpus(), 30) + rng.sample(gen.rule_corpus(), 30) + gen.load_store_corpus() + rng.sample(gen.cse_corpus(), 20)
     samples = []
     for opts in (["-greedy"], ["-greedy", "-storage", "-size"]):
         per_seed = {}
